@@ -230,7 +230,64 @@ def c10(tier):
         "econf_writeFile and econf_mergeFiles as read-only users are covered by the C07 and C03 harnesses (inputs compared with their snapshots there)"],
         "explanation": "frame property of every read-only API call, decided by bounded model checking from an arbitrary valid state"}
 
-REGISTRY = {"C10": c10, "C11": c11, "C03": c03, "C04": c04, "C08": c08, "C09": c09}
+import convgen
+
+def conv_inst(name, L, opts="", defs=(), timeout=600, functions=None):
+    n = len(L.tpl)
+    cap = max(n + 3, 9)
+    d = {"STRCAP": cap, "VCAP": max(len(L.exps), len(L.secs) + 1, 2) + 1, "VFS_CONTENT": n + 1, "VFS_MAXNODES": 2}
+    for x in defs: d[x] = None
+    E = max(len(L.exps), 1); G = len(L.secs) + 1
+    uw = lib_unwinds(E, G, lines=L.line + 1) + [(r"p_conv\.c", r"r < NREL", len(L.rels) + 1), (r"p_conv\.c", r"p < FLEN", n + 1),
+          (r"p_conv\.c", r"i < NEXP", len(L.exps) + 1), (r"p_conv\.c", r"i < NSEC|s < NSEC", len(L.secs) + 2), (r"p_conv\.c", r"p < MAXP", 5),
+          (r"p_conv\.c", r"p < n;", 5), (r"p_conv\.c", r"\*set; set\+\+", 18), (r"p_conv\.c", r"\*d; d\+\+", 5), (r"libeconf_ext\.c", r"strsep", 5), (r"vfs_cbmc\.c", r"k < VFS_CONTENT", n + 3)]
+    inst = Instance(name, "p_conv.c", d, unwind=cap + 1, unwindset=uw, timeout=timeout, mem_gb=8, leak_check=False,
+                    gen_files={"layout.h": L.header(opts=opts)},
+                    functions=functions or "read_file_with_callback, read_file, store, check_delim, setGroupList, econf_getGroups, econf_getKeys, econf_getStringValue, econf_getExtValue, econf_errLocation, econf_freeFile",
+                    bounds="layout (K/k key, V/v/W value, q quoted, c comment, S/s section, b blank, d delimiter, h comment char, m/M continuation chars are symbolic over their class; the rest literal): %s ; delim=%r comment=%r ; lines: %s"
+                           % (convgen.cstr(L.tpl), L.delim, L.comment, " ".join(L.desc)),
+                    sample_decoder=lambda inp, inst, tpl=L.tpl: {"template": convgen.cstr(tpl), "file": "".join((chr(inp[i]) if i < len(inp) else "?") if c in "KkVWvqcSsbdhmnMx" else c for i, c in enumerate(tpl)).encode("latin1", "replace").decode("latin1").encode("unicode_escape").decode()})
+    inst.functional_only = True
+    return inst
+
+def conv_family(tier, seed, meta=False, err=False, kinds=None, per_class=None, defs=("CHECK_KEYS",), sysl=True, nlines=(2, 3), delims=None, comments=None, python=False, tag="conv", sys_quick=28):
+    import random
+    rng = random.Random(1000 + seed)
+    insts = []
+    delims = delims or (["eq", "sp", "speq", "none", "coleq"] if tier == "quick" else list(convgen.DELIM_SETS))
+    comments = comments or (["hash", "both"] if tier == "quick" else list(convgen.COMMENT_SETS))
+    per_class = per_class or (2 if tier == "quick" else 10)
+    for dn in delims:
+        for cn in comments:
+            dl, cm = convgen.DELIM_SETS[dn], convgen.COMMENT_SETS[cn]
+            layouts = []
+            if sysl and (tier == "thorough" or (dn == "eq" and cn == "hash")):
+                sysls = [("sys%d" % i, L) for i, L in enumerate(convgen.systematic_layouts(dl, cm, meta=meta))]
+                if tier == "quick" and len(sysls) > sys_quick:
+                    # fixed core (neighbour pairs) + a seed-rotated sample of the entry forms
+                    core = sysls[-12:]; rest = sysls[:-12]
+                    random.Random(77 + seed).shuffle(rest)
+                    sysls = rest[:sys_quick - 12] + core
+                layouts += sysls
+            for r in range(per_class):
+                nl = nlines[r % len(nlines)]
+                L = convgen.random_layout(rng, dl, cm, nl, want_err=err, python=python, meta=meta, only_kinds=kinds)
+                if err and L.err is None: continue
+                layouts.append(("rnd%d" % r, L))
+            for tg, L in layouts:
+                if not L.valid() or len(L.tpl) == 0 or len(L.tpl) > 40: continue
+                if not err and L.err is not None: continue
+                insts.append(conv_inst("%s-%s-%s-%s" % (tag, dn, cn, tg), L, opts="PYTHON_STYLE=1" if python else "", defs=defs))
+    return insts
+
+def c02(tier):
+    seed = int(__import__("os").environ.get("VERIF_SEED", "0") or 0)
+    return {"instances": conv_family(tier, seed), "assumptions": COMMON_ASSUME + [
+        "layouts (line kinds, which optional blanks/quotes/comments are present, field lengths) are concrete per instance: a fixed systematic sweep plus a pseudo-random sample drawn from VERIF_SEED; all field characters are symbolic over their grammar class",
+        "section names / keys that are meant to be distinct are assumed distinct, re-opened sections / repeated keys are assumed equal (relations generated with the layout)"],
+        "explanation": "bounded model checking of the real parser on generated conventional files with the expected result constructed alongside"}
+
+REGISTRY = {"C02": c02, "C10": c10, "C11": c11, "C03": c03, "C04": c04, "C08": c08, "C09": c09}
 
 def get(prop, tier):
     if prop not in REGISTRY:
